@@ -27,7 +27,7 @@ DirTrees == UNION {[d -> Entries] : d \in {S \in SUBSET RootNames : S # {}}}
 FileOutputs == [kind : {"file"}, content : Contents, exec : BOOLEAN, path : {"o", "sub/o"}]
 
 DirPriors == {"identical", "absent", "modify", "truncate", "extra-root", "extra-nested", "rm-entry", "chmod", "relink", "file-where-dir", "emptied", "readonly-sub"}
-FilePriors == {"identical", "absent", "parent-absent", "modify", "truncate", "chmod"}
+FilePriors == {"identical", "absent", "parent-absent", "modify", "truncate", "chmod", "modify-chmod", "longer-chmod", "dir-where-file", "symlink-to-sibling", "dangling-symlink"}
 
 HasFile(t) == \E n \in DOMAIN t : t[n].kind = "file" \/ (t[n].kind = "dir" /\ \E m \in DOMAIN t[n].sub : t[n].sub[m].kind = "file")
 HasSub(t) == \E n \in DOMAIN t : t[n].kind = "dir"
